@@ -185,6 +185,49 @@ func concretise(c *GuardCase) (dec string, inputs [][]byte) {
 		put32(b, 40, top(c.i("l2"), 16, 44))
 		return "header", [][]byte{b}
 
+	case "sum32":
+		a, b := c.i("a"), c.i("b")
+		scale := func(v int) int32 {
+			if v == 7 {
+				return 0x7FFFFFFF
+			}
+			return int32(int64(v) << 28)
+		}
+		if c.X["kind"] == "priv" {
+			// a = offset, b = size; small positive offsets are real positions of the Private DICT
+			return "cff", [][]byte{cffPrivateRaw(scale(b), scale(a), c.i("S")), cffPrivateRaw(scale(b), int32(42), c.i("S"))}
+		}
+		if a < 1 || a > 5 {
+			return "", nil // the Private DICT must really be at its offset for Subrs to be looked at
+		}
+		return "cff", [][]byte{mutate.CFFWithSubrsOffset(scale(b))}
+
+	case "fixedtab":
+		n := map[string]int{"charset0": 229, "charset1": 166, "charset2": 87, "enc0": 256, "enc1": 256, "sid": 391,
+			"stack": 48, "postmac": 258}[c.X["tab"].(string)] + c.i("d")
+		switch tab := c.X["tab"].(string); tab {
+		case "charset0", "charset1", "charset2":
+			return "cff", [][]byte{mutate.CFFPredef(n, int(tab[7]-'0'), c.i("enc"))}
+		case "enc0", "enc1":
+			// n glyphs need a custom charset (the predefined ones are shorter): one range of standard SIDs
+			return "cff", [][]byte{mutate.CFFCharset(n, 0, int(tab[3]-'0'), []byte{2, 0, 1, byte((n - 2) >> 8), byte(n - 2)})}
+		case "sid":
+			return "cff", [][]byte{mutate.CFFCharset(2, 0, c.i("enc"), []byte{0, byte(n >> 8), byte(n)})}
+		case "stack":
+			cs := make([]byte, 0, n+1)
+			for k := 0; k < n; k++ {
+				cs = append(cs, mutate.T2Num(1)...)
+			}
+			return "cff", [][]byte{mutate.CFFWithCharstrings([][]byte{append(cs, 14)}, nil, nil)}
+		case "postmac":
+			t := &buf{}
+			t.u16(2, 0, 0, 0, 0xFF9C, 50, 0, 0, 0, 0, 0, 0, 0, 0, 0, 0) // version 2.0 header, 32 bytes
+			t.u16(1, n)
+			t.b = append(t.b, 1, 'a')
+			return "post", [][]byte{t.b}
+		}
+		return "", nil
+
 	case "t2store":
 		var cs []byte
 		if c.i("prior") == 1 {
@@ -340,6 +383,26 @@ func cffWithPrivate(size, offs, s int) []byte {
 	top := append(num(36), 17)
 	top = append(top, num(realSize)...)
 	top = append(top, num(realOffs)...)
+	top = append(top, 18)
+	b := []byte{1, 0, 4, 1}
+	b = append(b, 0, 1, 1, 1, 2, 'A')
+	b = append(b, 0, 1, 1, 1, byte(1+len(top)))
+	b = append(b, top...)
+	b = append(b, 0, 0, 0, 0)
+	b = append(b, 0, 1, 1, 1, 2, 14)
+	if len(b) != priv {
+		vio.Fatal(fmt.Errorf("cff assembler: layout %d", len(b)))
+	}
+	return append(b, make([]byte, 4*s)...)
+}
+
+// cffPrivateRaw is cffWithPrivate with the Private operands given as they are.
+func cffPrivateRaw(size, offs int32, s int) []byte {
+	const priv = 42
+	num := func(v int32) []byte { return []byte{29, byte(v >> 24), byte(v >> 16), byte(v >> 8), byte(v)} }
+	top := append(num(36), 17)
+	top = append(top, num(size)...)
+	top = append(top, num(offs)...)
 	top = append(top, 18)
 	b := []byte{1, 0, 4, 1}
 	b = append(b, 0, 1, 1, 1, 2, 'A')
